@@ -194,7 +194,9 @@ def clark(name) -> str:
 
 
 # -- documents -------------------------------------------------------------------
-def atoms_text(atoms, prefix_of) -> str:
+def atoms_text(atoms, prefix_of, sep=" ") -> str:
+    """`sep` other than one blank is only used between the items of a token LIST (two or more atoms), where the
+    lexical space collapses whitespace; the list is then also padded on both sides."""
     out = []
     for a in atoms:
         if "s" in a:
@@ -206,6 +208,8 @@ def atoms_text(atoms, prefix_of) -> str:
             else:
                 p = prefix_of(uri)
                 out.append(f"{p}:{local}" if p else local)
+    if sep != " " and len(out) >= 2:
+        return " " + sep.join(out) + sep
     return " ".join(out)
 
 
@@ -220,7 +224,8 @@ def render_doc(doc: dict, style: int = 0) -> str:
     """Spell an abstract document as XML text, independently of xsdata.
     style 0: every namespace gets a prefix declared on the element that first needs it;
     style 1: the element's own namespace is the default namespace, others prefixed at the root;
-    style 2: as 0 with other prefix names, attributes in reverse order, whitespace between children;
+    style 2: as 0 with other prefix names, attributes in reverse order, whitespace between children, token lists
+             separated by runs of blanks / tabs / newlines and padded;
     style 3: text as CDATA sections; style 4: text as numeric character references."""
     counter = {"n": 0}
 
@@ -263,12 +268,12 @@ def render_doc(doc: dict, style: int = 0) -> str:
             items.reverse()
         for name, atoms in items:
             ap = prefix_of(name[0], for_attr=True) if name[0] else ""
-            val = atoms_text(atoms, lambda u: prefix_of(u) if u else "")
+            val = atoms_text(atoms, lambda u: prefix_of(u) if u else "", sep="  " if style == 2 else " ")
             attrs.append(f'{ap + ":" if ap else ""}{name[1]}="{_esc(val, True)}"')
         content = []
         for c in el["content"]:
             if "text" in c:
-                raw = atoms_text(c["text"], lambda u: prefix_of(u) if u else "")
+                raw = atoms_text(c["text"], lambda u: prefix_of(u) if u else "", sep=" \n\t" if style == 2 else " ")
                 if style == 3 and raw:
                     content.append("<![CDATA[" + raw.replace("]]>", "]]]]><![CDATA[>") + "]]>")
                 elif style == 4 and raw:
